@@ -39,7 +39,7 @@ import pandas as pd
 from hypothesis import strategies as st
 
 from vf import redcommon as R
-from vf.learners import ExactTable, ExactTableRegressor, ExactTableW
+from vf.learners import ExactTable, ExactTableNested, ExactTableRegressor, ExactTableW
 from vf.runner import PropertyViolation, Sub
 
 PROPERTY = "C09"
@@ -135,7 +135,8 @@ def _check_parity(case, distinct):
     sf = R.build_vector(case, case["sf_kind"], R.group_labels(case))
     grid_size, grid_limit, cw = case["grid_size"], case["grid_limit"], case["cw"]
     swn = bool(case.get("swn"))
-    gs = GridSearch((ExactTableW if swn else ExactTable)(tie=case.get("tie", 0)), R.build_moment(case), constraint_weight=cw,
+    learner = ExactTableW if swn else (ExactTableNested if case.get("nested") else ExactTable)
+    gs = GridSearch(learner(tie=case.get("tie", 0)), R.build_moment(case), constraint_weight=cw,
                     grid_size=grid_size, grid_limit=grid_limit, **({"sample_weight_name": "w"} if swn else {}))
     gs.fit(X, y, sensitive_features=sf)
 
@@ -189,6 +190,8 @@ def _check_parity(case, distinct):
     tags = ["m:" + case["moment"], "groups%d" % len(P.group_values)]
     if case.get("user_grid"):
         tags.append("user_grid")
+    if case.get("nested") and not swn:
+        tags.append("learner_with_nested_state")
     n_distinct = len(set(preds))
     if n_distinct >= 3 and errs[bi] > float(errs_H.min()) + 1e-12:
         tags.append("nt")
